@@ -662,10 +662,12 @@ EvalVariant(b, v) ==
                   [] v.kind = "disable" -> ExactDisable(b.cfg, v.cfg, v.code, b.ev)
                   [] OTHER -> TRUE,
       codes |-> CodeSets(b.cfg[v.mainf].enabled, b.cfg[v.mainf].disabled, v.addDis, v.addEn),
+      left |-> IF v.kind = "ignore" THEN NotesLeftBehind(b.cfg, v.cfg, v.f, v.l, b.ev) ELSE {},
+      narrow |-> IF v.same THEN {} ELSE NarrowerOrigin(evv),
       newErr |-> IF v.kind = "enable" THEN NewErrors(v.cfg, b.cfg, evv) ELSE NewErrors(b.cfg, v.cfg, b.ev),
       iff |-> UnusedIff(v.cfg, evv) /\ NoCodeIff(v.cfg, evv) /\ ExitTruth(v.cfg, evv)]
 Eval(c) == LET B == Run(c.cfg, c.ev) IN
-  [out |-> FileOut(B), exit |-> Exit(B), codes |-> CodeSets({}, {}, c.addDis, c.addEn), iff |-> UnusedIff(c.cfg, c.ev) /\ NoCodeIff(c.cfg, c.ev) /\ ExitTruth(c.cfg, c.ev),
+  [out |-> FileOut(B), exit |-> Exit(B), narrow |-> NarrowerOrigin(c.ev), codes |-> CodeSets({}, {}, c.addDis, c.addEn), iff |-> UnusedIff(c.cfg, c.ev) /\ NoCodeIff(c.cfg, c.ev) /\ ExitTruth(c.cfg, c.ev),
    vars |-> [k \in 1..Len(c.vars) |-> EvalVariant(c, c.vars[k])]]
 TraceInit == pc = "trace" /\ cur = 0 /\ cfg = <<>> /\ ev = <<>>
 TraceNext == /\ cur < Len(Cases) /\ cur' = cur + 1
@@ -694,6 +696,7 @@ CONSTANTS
   SubCodesMatch = TRUE
   BlockersBypass = TRUE
   AssumeNoCrossCodeDups = TRUE
+  NotesInheritOrigin = TRUE
 """
 
 
@@ -802,7 +805,31 @@ class Variant:
         return self.label
 
 
-def make_variants(case: Case, base_out: dict[str, list[Any]], tables: dict[str, Any], rnd: random.Random, tier: str) -> list[Variant]:
+def span_placements(ev: list[dict[str, Any]], main_idx: int, names: dict[str, str], rnd: random.Random, cap: int) -> list["Variant"]:
+    """An error may be ignored on ANY line of its origin span (the `def` line of a multi-line signature, the first line of a
+    multi-line call, ...), not only where it is reported: for every recorded error of the main file whose origin span has
+    more than one line, a bare and a right-code ignore on each line of the span."""
+    want: list[tuple[int, str]] = []
+    for e in ev:
+        if e["t"] != "report" or e["f"] != main_idx:
+            continue
+        r = e["r"]
+        if r["sev"] != "error" or r["blocker"] or r["code"] == "none" or len(set(r["span"])) < 2:
+            continue
+        for ln in dict.fromkeys(r["span"]):
+            if (ln, names.get(r["code"], r["code"])) not in want:
+                want.append((ln, names.get(r["code"], r["code"])))
+    if len(want) > cap:
+        want = sorted(rnd.sample(want, cap))
+    vs = []
+    for ln, code in want:
+        vs.append(Variant("ignore", placements=[(ln, [code])]))
+        vs.append(Variant("ignore", placements=[(ln, [])]))
+    return vs
+
+
+def make_variants(case: Case, base_out: dict[str, list[Any]], tables: dict[str, Any], rnd: random.Random, tier: str,
+                  base_ev: list[dict[str, Any]] | None = None, main_idx: int = 0) -> list[Variant]:
     vs: list[Variant] = []
     items = [t for t in base_out.get("main", []) if t[1] > 0]
     by_line: dict[int, list[Any]] = {}
@@ -852,6 +879,11 @@ def make_variants(case: Case, base_out: dict[str, list[Any]], tables: dict[str, 
             vs.append(Variant("other", flags=["--disable-error-code", c, "--enable-error-code", c], label="disable+enable=" + c))
     for c in rnd.sample(ENABLE_POOL, 1 if tier == "quick" else 2):
         vs.append(Variant("enable", code=c, flags=["--enable-error-code", c], label="enable=" + c))
+    if base_ev is not None:
+        have = {v.key() for v in vs}
+        for v in span_placements(base_ev, main_idx, tables["name"], rnd, 4 if tier == "quick" else 10):
+            if v.key() not in have:
+                vs.append(v)
     return vs
 
 
@@ -929,8 +961,8 @@ def process_cases(args: tuple[list[Case], int, str, dict[str, Any]]) -> dict[str
         if base.crash or base.options_error:
             skip("base-crash-or-options")
             continue
-        if not base.messages:
-            skip("no-diagnostics")
+        if not base.messages and not any(e[0] == "report" for e in base.events):
+            skip("no-diagnostics")     # (a case whose errors are all suppressed by its own ignores is still a trace)
             continue
         stats["cases_with_output"] += 1
         ab = Abstractor()
@@ -947,7 +979,7 @@ def process_cases(args: tuple[list[Case], int, str, dict[str, Any]]) -> dict[str
         main_idx = ab.files["main"]
         if base.blocked:
             stats["blocker_cases"] += 1
-        variants = make_variants(case, base.out, tables, rnd, tier)
+        variants = make_variants(case, base.out, tables, rnd, tier, b["ev"], main_idx)
         vrecs = []
         for v in variants:
             text = case.main
@@ -1053,6 +1085,11 @@ def process_cases(args: tuple[list[Case], int, str, dict[str, Any]]) -> dict[str
         if bad:
             problems.append({"class": "trace", "case": case.key, "variant": "base", "extras": extras, "what": bad, "main": case.main})
             continue
+        if res["narrow"]:
+            problems.append({"class": "attach", "case": case.key, "variant": "base", "extras": extras, "main": case.main,
+                             "sig": attach_signature(ab, b["ev"], res["narrow"]),
+                             "what": "notes attached to an error cannot be ignored on every line of the error's origin span: "
+                                     + describe_pairs(ab, b["ev"], res["narrow"])})
         if not res["iff"]:
             problems.append({"class": "iff", "case": case.key, "variant": "base", "extras": extras,
                              "what": "UnusedIff/NoCodeIff/ExitTruth false on the recorded base run", "main": case.main})
@@ -1082,6 +1119,15 @@ def process_cases(args: tuple[list[Case], int, str, dict[str, Any]]) -> dict[str
                                                      "disable) gives enabled=%s disabled=%s" % (
                                                          v.flags, sorted(got["enabled"]), sorted(got["disabled"]),
                                                          sorted(vr["codes"]["enabled"]), sorted(vr["codes"]["disabled"]))}))
+            if vr["left"]:
+                stats["notes_left_behind"] = stats.get("notes_left_behind", 0) + 1
+                problems.append(dict(rep, **{"class": "attach", "sig": attach_signature(ab, b["ev"], vr["left"]),
+                                             "what": "the ignore removed the error but left notes attached to it: "
+                                                     + describe_pairs(ab, b["ev"], vr["left"])}))
+            if vr["narrow"]:
+                problems.append(dict(rep, **{"class": "attach", "sig": attach_signature(ab, a["ev"], vr["narrow"]),
+                                             "what": "notes attached to an error cannot be ignored on every line of its origin span: "
+                                                     + describe_pairs(ab, a["ev"], vr["narrow"])}))
             if vr["newErr"]:
                 # output-level exactness: an error line is printed that the other run did not print
                 other = a["out"] if v.eval_kind == "enable" else b["out"]
@@ -1139,6 +1185,27 @@ GENERATED: list[Any] = [
     ("untyped-note", ["--check-untyped-defs"], "def f():\n    x: int = ''\n    return undefined_thing\n"),
     ("same-text-two-codes", [], "import functools\nfrom typing import Callable, Union\nfn3: Union[Callable[[int], int], str]\n"
                                 "functools.partial(fn3, 2)()\n", "tuple.pyi"),
+    # ---- multi-line constructs whose error (+ attached notes) may be ignored on several lines (origin span != reported line)
+    ("ml-override-arg", [], "class A:\n    def f(self, x: int) -> None: ...\nclass B(A):\n    def f(\n        self,\n        x: str,\n    ) -> None: ...\n"),
+    ("ml-override-eq", [], "class C:\n    def __eq__(\n        self,\n        other: int,\n    ) -> bool:\n        return True\n"),
+    ("ml-override-return", [], "class A:\n    def f(self) -> int: ...\nclass B(A):\n    def f(\n        self,\n    ) -> str: ...\n"),
+    ("ml-override-signature", [], "class A:\n    def f(self, x: int, y: int) -> None: ...\nclass B(A):\n    def f(\n        self,\n        x: int,\n    ) -> None: ...\n"),
+    ("ml-call-defined-here", [], "def f(x: int) -> None: ...\nf(\n    1,\n    zz=2,\n)\n"),
+    ("ml-call-overload", [], "from typing import overload, Union\n@overload\ndef f(x: int) -> int: ...\n@overload\ndef f(x: str) -> str: ...\n"
+                             "def f(x: Union[int, str]) -> Union[int, str]: return x\nf(\n    1.5,\n)\n"),
+    ("ml-call-protocol", [], "from typing import Protocol\nclass P(Protocol):\n    def m(self, x: int) -> int: ...\n"
+                             "class Impl:\n    def m(self, x: str) -> str: ...\ndef use(p: P) -> None: ...\nuse(\n    Impl(),\n)\n"),
+    ("ml-assign-protocol", [], "from typing import Protocol\nclass P(Protocol):\n    attr: int\n    def m(self) -> int: ...\n"
+                               "class Impl:\n    attr: str\n    def m(self) -> str: ...\nx: P = (\n    Impl()\n)\n"),
+    ("ml-typeddict", [], "from typing import TypedDict\nclass TD(TypedDict):\n    x: int\n    y: str\n"
+                         "t: TD = {\n    'x': 'a',\n    'y': 1,\n}\nu = TD(\n    x=1,\n    z=2,\n)\n",
+     {"builtins.pyi": "fixtures/dict.pyi", "typing.pyi": "fixtures/typing-typeddict.pyi"}),
+    ("ml-dataclass", [], "from dataclasses import dataclass\n@dataclass\nclass D:\n    a: int\n    b: str = 1\nD(\n    'x',\n    2,\n    3,\n)\n",
+     "dataclasses.pyi"),
+    ("ml-operand-union", [], "from typing import Optional\nclass C: pass\ndef f() -> Optional[C]:\n    return None\nf(\n) + C()\n"),
+    ("ml-decorated", [], "from typing import Callable, TypeVar\nT = TypeVar('T')\ndef deco(x: int) -> Callable[[T], T]: ...\n"
+                         "@deco(\n    'a',\n)\ndef g(\n    x: int,\n) -> str:\n    return x\n"),
+    ("ml-return-list", [], "from typing import List\ndef f() -> List[int]:\n    return [\n        'a',\n        1,\n    ]\n", "list.pyi"),
 ]
 
 
@@ -1147,15 +1214,46 @@ def generated_cases(repo: str) -> list[Case]:
     cases = []
     for g in GENERATED:
         name, flags, src = g[:3]
-        with open(os.path.join(unit, "fixtures", g[3] if len(g) > 3 else "dict.pyi"), encoding="utf8") as f:
-            fx = f.read()
-        c = Case(name, os.path.join(unit, "check-generated.test"), src, [("builtins.pyi", fx)], flags)
+        fixtures = g[3] if len(g) > 3 else "dict.pyi"
+        if isinstance(fixtures, str):
+            fixtures = {"builtins.pyi": "fixtures/" + fixtures}
+        files = []
+        for target, rel in fixtures.items():
+            with open(os.path.join(unit, rel), encoding="utf8") as f:
+                files.append((target, f.read()))
+        c = Case(name, os.path.join(unit, "check-generated.test"), src, files, flags)
         c.key = "generated::" + name
         cases.append(c)
     return cases
 
 
 # =========================================================================== classification of disagreements
+RE_OPERAND_NOTE = re.compile(r"^(Left|Right) operand is of type |^Both left and right operands are unions$")
+
+
+def _pair_texts(ab: "Abstractor", ev: list[dict[str, Any]], pairs: list[Any]) -> list[tuple[dict[str, Any], str, dict[str, Any], str]]:
+    text = {i: t for t, i in ab.msg_ids.items()}
+    res = []
+    for i, j in pairs:
+        e, n = ev[i - 1]["r"], ev[j - 1]["r"]
+        res.append((e, text.get(e["msg"]["id"], "?"), n, text.get(n["msg"]["id"], "?")))
+    return res
+
+
+def describe_pairs(ab: "Abstractor", ev: list[dict[str, Any]], pairs: list[Any]) -> str:
+    return "; ".join("error line %d span %s [%s] %r <- note line %d span %s %r" % (
+        e["line"], e["span"], e["code"], et[:70], n["line"], n["span"], nt[:70]) for e, et, n, nt in _pair_texts(ab, ev, pairs)[:4])
+
+
+def attach_signature(ab: "Abstractor", ev: list[dict[str, Any]], pairs: list[Any]) -> str | None:
+    """The one catalogued defect of this class: the union-operand notes of a multi-line binary operation."""
+    ps = _pair_texts(ab, ev, pairs)
+    if ps and all(e["code"] == "operator" and n["code"] == "operator" and RE_OPERAND_NOTE.match(nt) and len(set(n["span"])) == 1
+                  for e, et, n, nt in ps):
+        return "attach:union-operand-note-keeps-one-line-origin"
+    return None
+
+
 RE_SUGGEST = re.compile(r"; did you mean .*\?$")
 
 
@@ -1461,7 +1559,7 @@ def main(argv: list[str]) -> int:
     gens = ["Gen_Errors_A.cfg", "Gen_Errors_B.cfg", "Gen_Errors_C.cfg"]
     mcs = ["MC_Errors_S.cfg"] if tier == "quick" else ["MC_Errors_S.cfg", "MC_Errors_A3.cfg"]
     muts = {"Mut_Errors_DisabledMarksUsed.cfg": "UnusedExact", "Mut_Errors_NoSubCodes.cfg": "Exactness",
-            "Mut_Errors_BlockersIgnorable.cfg": "Exactness"}
+            "Mut_Errors_BlockersIgnorable.cfg": "Exactness", "Mut_Errors_NoteOwnOrigin.cfg": "AttachedExact"}
     jobs = [(c, dict(workers=4, coverage=False, timeout=1500, heap="6g")) for c in gens] + \
            [(c, dict(workers=2 if c.endswith("_S.cfg") else 6, coverage=c.endswith("_S.cfg"), timeout=2400, heap="6g")) for c in mcs] + \
            [(c, dict(workers=1, coverage=False, timeout=600)) for c in muts]
@@ -1529,7 +1627,7 @@ def main(argv: list[str]) -> int:
     if len(corpus) < 3000:
         raise MachineryError("corpus loader found only %d cases" % len(corpus))
     always = {"check-errorcodes.test::testErrorCodeUndefinedNameSuggestion", "check-errorcodes.test::testErrorCodeUndefinedNameSuggestionLocal",
-              "check-functools.test::testFunctoolsPartialUnion"}
+              "check-functools.test::testFunctoolsPartialUnion", "check-errorcodes.test::testErrorCodeMultiLineBinaryOperatorOperand"}
     if tier == "quick":
         pool_cases = [c for c in corpus if c.key not in always]
         chosen = [c for c in corpus if c.key in always] + rnd.sample(pool_cases, 130)
